@@ -172,7 +172,8 @@ func c20PolicySpaces(thorough bool) []c20Space {
 		return append(sp,
 			c20Space{"base", c20Kinds4, abc, c20Values, 3, 2},
 			c20Space{"deep", c20KindsABC, abc, c20Values, 5, 0},
-			c20Space{"four", c20Kinds4, abc, c20Values, 4, 1})
+			c20Space{"four", c20Kinds3, ab, c20Values, 4, 1},
+			c20Space{"four-signed", c20Kinds4, abc, c20Values, 4, -1})
 	}
 	return append(sp,
 		c20Space{"three-ab-stacked", c20Kinds2, ab, c20Values, 3, 2},
